@@ -97,7 +97,16 @@ class Built:
         self = cls.__new__(cls)
         ls = Lockstep(case['spec'])
         ls.check_every_step = False
-        for op in case['history']:
+        mid = case.get('generate_after')
+        for i, op in enumerate(case['history']):
+            if mid is not None and i == mid:
+                # the model already served a generation before the remaining edits
+                from maltoolbox.attackgraph import AttackGraph
+                try:
+                    with cpu_budget(CASE_CPU_S):
+                        AttackGraph(ls.lang_graph, ls.model)
+                except TooExpensive:
+                    pass
             ls.apply(op)
         self.case = case
         self.lang = ls.lang
